@@ -39,11 +39,15 @@ type Descriptor struct {
 	Files        int      `json:"files"`
 	Sites        int      `json:"sites"`
 	SyncImports  []string `json:"sync_imports"`  // files importing sync or sync/atomic
-	BlockingSync []string `json:"blocking_sync"` // uses of sync.Mutex/RWMutex/Once/Cond/WaitGroup, channels, select, go
+	BlockingSync []string `json:"blocking_sync"` // constructs that force operation-granular scheduling
+	SoftSync     []string `json:"soft_sync"`     // sync.Mutex/RWMutex/Once uses handled by the lock rewrite
 	GoStmts      int      `json:"go_stmts"`
 	ChanOps      int      `json:"chan_ops"`
 	PkgVars      []string `json:"pkg_vars"` // package-level variables that are not error sentinels
 	OpOnly       bool     `json:"op_only"`  // scheduling must stay operation-granular
+	LockRewrites int      `json:"lock_rewrites"` // x.Lock()/x.RLock() statements rewritten to TryLock loops
+	OnceWraps    int      `json:"once_wraps"`    // x.Do(f) statements wrapped in a no-preemption window
+	Rewrite      bool     `json:"rewrite"`       // lock rewriting was enabled for this copy
 	SiteTable    []Site   `json:"-"`
 }
 
@@ -54,12 +58,21 @@ type insertion struct {
 
 // Run copies srcDir (a Go module) to dstDir, instrumenting every non-test Go
 // file of every package directory.
-func Run(srcDir, dstDir string) (*Descriptor, error) {
+func Run(srcDir, dstDir string) (*Descriptor, error) { return RunOpts(srcDir, dstDir, true) }
+
+// RunOpts is Run with lock rewriting switchable.  With rewrite, statements of the
+// form `x.Lock()` / `x.RLock()` become `for !x.TryLock() { zzSimhook.Blocked() }`
+// (the scheduler then runs another task until the lock is free, so a task
+// descheduled inside a critical section cannot deadlock the simulation) and
+// statements of the form `x.Do(f)` run inside a no-preemption window (sync.Once
+// holds a mutex while f runs).  If the rewritten copy does not compile the caller
+// falls back to RunOpts(..., false), which flags the tree operation-granular.
+func RunOpts(srcDir, dstDir string, rewrite bool) (*Descriptor, error) {
 	mod, err := modulePath(filepath.Join(srcDir, "go.mod"))
 	if err != nil {
 		return nil, err
 	}
-	d := &Descriptor{Module: mod}
+	d := &Descriptor{Module: mod, Rewrite: rewrite}
 	hookImport := mod + "/" + HookPkgDir
 
 	// collect package directories
@@ -210,6 +223,22 @@ func Run(srcDir, dstDir string) (*Descriptor, error) {
 				visitBlock(x.Body, false)
 			case *ast.CommClause:
 				visitBlock(x.Body, false)
+			case *ast.ExprStmt:
+				if call, ok := x.X.(*ast.CallExpr); ok && rewrite {
+					if sel, ok := call.Fun.(*ast.SelectorExpr); ok {
+						switch {
+						case (sel.Sel.Name == "Lock" || sel.Sel.Name == "RLock") && len(call.Args) == 0:
+							ins = append(ins, insertion{tf.Offset(x.Pos()), "for !"})
+							ins = append(ins, insertion{tf.Offset(sel.Sel.Pos()), "Try"})
+							ins = append(ins, insertion{tf.Offset(x.End()), " { zzSimhook.Blocked() }"})
+							d.LockRewrites++
+						case sel.Sel.Name == "Do" && len(call.Args) == 1:
+							ins = append(ins, insertion{tf.Offset(x.Pos()), "zzSimhook.NoPreemptBegin(); "})
+							ins = append(ins, insertion{tf.Offset(x.End()), "; zzSimhook.NoPreemptEnd()"})
+							d.OnceWraps++
+						}
+					}
+				}
 			case *ast.GoStmt:
 				d.GoStmts++
 				d.BlockingSync = append(d.BlockingSync, fmt.Sprintf("%s:%d go statement", rel, tf.Line(x.Pos())))
@@ -232,6 +261,12 @@ func Run(srcDir, dstDir string) (*Descriptor, error) {
 					switch x.Sel.Name {
 					case "Pool", "Map":
 						// never hold a lock across user code: cannot block a descheduled task's peers
+					case "Mutex", "RWMutex", "Once", "Locker":
+						if rewrite {
+							d.SoftSync = append(d.SoftSync, fmt.Sprintf("%s:%d sync.%s", rel, tf.Line(x.Pos()), x.Sel.Name))
+						} else {
+							d.BlockingSync = append(d.BlockingSync, fmt.Sprintf("%s:%d sync.%s", rel, tf.Line(x.Pos()), x.Sel.Name))
+						}
 					default:
 						d.BlockingSync = append(d.BlockingSync, fmt.Sprintf("%s:%d sync.%s", rel, tf.Line(x.Pos()), x.Sel.Name))
 					}
@@ -276,6 +311,11 @@ func Run(srcDir, dstDir string) (*Descriptor, error) {
 	hb.WriteString("var Hook func(site int)\n\n")
 	hb.WriteString("// Yield is the generated call target.\n")
 	hb.WriteString("func Yield(site int) {\n\tif Hook != nil {\n\t\tHook(site)\n\t}\n}\n\n")
+	hb.WriteString("// Blocked is called from a rewritten Lock loop: the lock is held by a descheduled task.\n")
+	hb.WriteString("func Blocked() {\n\tif Hook != nil {\n\t\tHook(-2)\n\t}\n}\n\n")
+	hb.WriteString("// NoPreempt > 0 while a sync.Once-style callback runs; the scheduler must not switch then.\nvar NoPreempt int\n\n")
+	hb.WriteString("// NoPreemptBegin opens a no-preemption window.\n//\n//go:norace\nfunc NoPreemptBegin() { NoPreempt++ }\n\n")
+	hb.WriteString("// NoPreemptEnd closes it.\n//\n//go:norace\nfunc NoPreemptEnd() {\n\tif NoPreempt > 0 {\n\t\tNoPreempt--\n\t}\n}\n\n")
 	hb.WriteString("// SiteInfo describes one yield site.\ntype SiteInfo struct {\n\tFile string\n\tLine int\n\tFunc string\n\tFuncFirst bool\n\tGlobal bool\n}\n\n")
 	fmt.Fprintf(&hb, "// OpOnly is set when the module contains blocking synchronisation of its own.\nconst OpOnly = %v\n\n", d.OpOnly)
 	hb.WriteString("// Sites is the table of generated yield sites.\nvar Sites = [...]SiteInfo{\n")
